@@ -107,8 +107,14 @@ def check_seqnum(obs, upto_docs=None):
                     missing = sorted(full - present)[:5]
                     extra = sorted(present - full)[:5]
                     what = "beyond" if extra and not missing else ("missing" if missing and not extra else "both")
-                    if ctx.get(r["stop_di"], (0, None, 0))[1] != "close_run":
-                        what += ":engine-closed"  # the run was ended by the engine (abort/stop/halt/failure), not by the plan
+                    i_start = ctx.get(r["di"], (0, None, 0))[0]
+                    i_stop = ctx.get(r["stop_di"], (len(obs.timeline), None, 0))[0]
+                    ended_early = ctx.get(r["stop_di"], (0, None, 0))[1] != "close_run" or any(
+                        (t[0] == "state" and t[1] in ("aborting", "stopping", "halting")) or (t[0] == "plan_end" and t[1] == "raised")
+                        for t in obs.timeline[i_start:i_stop]
+                    )
+                    if ended_early:
+                        what += ":terminated"  # the run was cut short (abort/stop/halt/failure) before its stop document
                     out.append(
                         (
                             f"seqnums-not-1..N:{kind}:{rewound}:{what}",
